@@ -40,7 +40,9 @@ CHECKS = {
                 text="Contract.tla gives the compile contract (Ok or Err, error position <= length, time budget) and the input model: every sequence of up to N "
                      "fragments of a 111-fragment vocabulary (exported by TLC), an amplification family opener^k body closer^k (k up to 100000), random longer "
                      "sequences and mutations of valid spellings; each input is compiled in a resource-limited child process from a debug build (overflow checks on), "
-                     "a dead child being the outcome of the input it was processing; TLC checks the contract on every recorded outcome.",
+                     "a dead child being the outcome of the input it was processing; TLC checks the contract on every recorded outcome. The parser stage has an exact "
+                     "oracle: Parse.tla (function-by-function mirror of parse.rs; MC_Parse model-checks 'error position <= length' and tree well-formedness for ALL "
+                     "strings up to the bound) must produce the same tree, named groups, error kind and byte position as Expr::parse_tree on every input.",
                 note="Honest level: exploration - a TLA+ model does not predict panics, overflow, allocation or native stack depth; it supplies the space and the contract. "
                      "Limits: 2 GiB address space, CPU limit per child, 5 s + 1 ms/byte per input.",
                 technique="spec-defined input space and contract; sandboxed compilation; trace validation of outcomes by TLC"),
@@ -113,8 +115,9 @@ CHECKS = {
     "C19": dict(level="model_checking", ref="6 C19",
                 text="Spell.tla generates, for every base pattern, the documented-equivalent spellings (13 styles: free spacing and comments, named/numbered/relative "
                      "references, inline vs scoped flags, hex/unicode escapes, possessive vs atomic, \\A \\z); every spelling is compiled and run over all cells; TLC "
-                     "requires rows = RefSem of the base pattern and the same parser tree as the plain spelling.",
-                note="Generative: only spellings Spell.tla produces are covered (the parser is not modelled as a recogniser). Findings F10 (inline flags leaking out of capturing "
+                     "requires rows = RefSem of the base pattern and the same parser tree as the plain spelling; in the other direction the real parser's tree for "
+                     "every spelling must equal the tree Parse.tla (parser model) computes, and in the model a spelling and its plain form must parse alike.",
+                note="Spellings are generated by Spell.tla; the parser is ALSO modelled as a recogniser (Parse.tla), validated on every spelling and on the C06 input spaces. Findings F10 (inline flags leaking out of capturing "
                      "groups) and F11 (blank inside a class under (?x)) are recorded, probed by witnesses and kept out of the generated styles. " + TCB,
                 technique="TLA+ generative model of the concrete syntax + trace validation of recorded searches and parser trees"),
     "C20": dict(level="model_checking", ref="6 C20",
